@@ -66,7 +66,7 @@ def quantize_multiplier(d):
         e += 1
     if e < -31:
         return 0, 0
-    return m, e
+    return (m if d > 0 else -m), e  # TfLiteRound is symmetric: a negative real multiplier gives the negated significand
 
 
 def mbqm(x, m, shift):
